@@ -705,6 +705,35 @@ func (P *Prog) checkMergeOrder(r *Result) {
 			case !fromOthers(args[1]):
 				prob = "the fold does not merge the next of the remaining operands into the accumulated schema"
 			}
+			// the same fold as tail recursion: `return acc.Merge(others[0], others[1:]...)`
+			if len(args) == 3 && len(fn.Params) == 3 && prob == "" {
+				isInt := func(v ssa.Value, n int64) bool {
+					c, ok := v.(*ssa.Const)
+					return ok && c.Value != nil && c.Int64() == n
+				}
+				others := ssa.Value(fn.Params[2])
+				first, rest, returned := false, false, false
+				if u, ok := cv(args[1]).(*ssa.UnOp); ok && u.Op == token.MUL {
+					if ia, ok := u.X.(*ssa.IndexAddr); ok && cv(ia.X) == others && isInt(ia.Index, 0) {
+						first = true
+					}
+				}
+				if sl, ok := cv(args[2]).(*ssa.Slice); ok && cv(sl.X) == others && sl.Low != nil && isInt(sl.Low, 1) && sl.High == nil && sl.Max == nil {
+					rest = true
+				}
+				if v, ok := in.(ssa.Value); ok {
+					if refs := v.Referrers(); refs != nil {
+						for _, rf := range *refs {
+							if _, isRet := rf.(*ssa.Return); isRet {
+								returned = true
+							}
+						}
+					}
+				}
+				if first && rest && returned {
+					return []pathItem{{kind: "FOLD", val: prob, in: in}, {kind: "FOLDTAIL", in: in}}
+				}
+			}
 			return []pathItem{{kind: "FOLD", val: prob, in: in}}
 		}
 		if ci.static != nil && originName(ci.static) == "maps.Copy" {
@@ -773,7 +802,7 @@ func (P *Prog) checkMergeOrder(r *Result) {
 				inLoop = true
 			}
 		}
-		if !inLoop {
+		if !inLoop && p.index("FOLDTAIL") != fi+1 {
 			loopOK = false
 		}
 		for _, it := range p.items[fi+1:] {
